@@ -22,13 +22,13 @@ CHECKS = {
  "C03": ("exploration", "seeded simulation on layouts with distinguishable outputs; fired mapping read off the output stream", "3.A, 4 C03",
          "Non-absorbing layouts (distinguishable, general random, shipped), from every reached state: which mapping fires, press obligations, pass-through last, swallowed presses.", A_NOTE),
  "C04": ("exploration", "seeded simulation; modifier set replayed to the instant the final output key goes down", "3.A, 4 C04",
-         "For every fired key-producing mapping the step's events are replayed to the instant of the final key press: required modifiers down, no stale modifier.", A_NOTE),
+         "For every fired key-producing mapping the step's events are replayed to the instant of the final key press: required modifiers down, no stale modifier. Judged on absorbing layouts as well (the statement does not exclude them).", A_NOTE),
  "C05": ("exploration", "seeded simulation with foreign keys; per-step non-interference relations", "3.A, 4 C05",
-         "Foreign keys, release locality and exclusive outputs of mappings that stay in effect, over interleavings of foreign keys, chords and ill-formed events; empty layout checked for stream equality.", A_NOTE),
+         "Foreign keys, release locality and exclusive outputs of mappings that stay in effect, over interleavings of foreign keys, chords and ill-formed events; empty layout checked for stream equality. Clauses (b) and (c) are judged on absorbing layouts as well.", A_NOTE),
  "C06": ("exploration", "seeded simulation with reset blocks; behavioural comparison with a fresh twin mapper on every continuation", "3.A, 4 C06",
          "After every rest and every release-all (with unseen activity around it) a fresh twin mapper receives the same continuation; full StepResults must be equal.", A_NOTE),
  "C07": ("exploration", "seeded simulation on layouts mixing Disabled/Special with Normal mappings", "3.A, 4 C07",
-         "After a no-repeat firing no non-modifier key is down, each output was pressed during the step, and later releases make nothing held.", A_NOTE),
+         "After a no-repeat firing no non-modifier key is down, each output was pressed during the step, and later releases make nothing held. End to end, one run in eight has a write(2) on the virtual keyboard fail at a numbered system call (for good or for a moment): a no-repeat step that a reported failure cut between a press and its release leaves a key down (C07-partial-step); steps completed before the failure are judged as usual.", A_NOTE),
  "C08": ("exploration", "seeded simulation on absorbing layouts with distinguishable outputs; per-modifier absorb-epoch monitor", "3.A, 4 C08",
          "Epoch monitor per absorbed key: no mapping requiring it fires on other presses, it is not down when a non-modifier goes down, re-press of the same trigger fires again, and it counts again after release+press.", A_NOTE),
  "C09": ("exploration", "seeded simulation; StepResult.repeat compared with the reference outcome of every step", "3.A, 4 C09",
@@ -40,12 +40,12 @@ CHECKS = {
  "C11": ("exploration", "discrete-event simulation with a simulated clock; exact timeout/deadline prediction and chord payload check", "3.B, 4 C11",
          "The clock is simulated, so every poll timeout is predicted (None while unarmed is wrong when armed; the wait must end at the deadline, which lies between the read of the arming event and the next wait and is exact afterwards; at most 1 ms when overdue; a wait that ends earlier is legal and owes nothing); timings range from 0 ms to a day; chords are sent iff a time-out occurs while armed and not in tablet mode, with the payload 'repeat keys not already held, listed order, reverse release', and leave the held set unchanged. A third campaign (syspoll) runs the loop on the shipped RealDriver::poll: the time-out the loop computes goes through mio into epoll_wait, which the simulated kernel answers with millisecond granularity; a wait system call longer than what the loop asked for, or a time-out reported before the asked time (less 1 ms) has passed - e.g. an interruption reported as a time-out - is C11-hybrid.", B_NOTE),
  "C12": ("exploration", "discrete-event simulation with tablet-switch arrivals interleaved with key arrivals and timer ticks", "3.B, 4 C12",
-         "Tablet on/off events (repeated, during chords, with a timer armed, in the same wake-up as key events in both orders): release batch equals the held keys (as a set), no write until Off is read, and afterwards the loop must behave like RefLoop continued with a brand-new mapper (C12-not-fresh), so state carried across the change by the mapper or the timer is visible. The release of a key whose press was not handed to the mapper since the last change is owed nothing, whatever the mapper under test answers (C12-orphan-release). A hybrid campaign runs the shipped RealDriver on pipes: not reporting a tablet switch that has unread data (or a hang-up) counts against 'immediately' (C12-hybrid).", B_NOTE),
+         "Tablet on/off events (repeated, during chords, with a timer armed, in the same wake-up as key events in both orders): release batch equals the held keys (as a set), no write until Off is read, and afterwards the loop must behave like RefLoop continued with a brand-new mapper (C12-not-fresh), so state carried across the change by the mapper or the timer is visible. The release of a key whose press was not handed to the mapper since the last change is owed nothing, whatever the mapper under test answers (C12-orphan-release). A hybrid campaign runs the shipped RealDriver on pipes: not reporting a tablet switch that has unread data (or a hang-up) counts against 'immediately' (C12-hybrid). In hybrid runs the loop gets exactly what the shipped readers make of the bytes (nothing is repaired from the script); a tablet reader that loses, invents or garbles a switch event is C12-hybrid, and events the keyboard reader makes up (marked phantom) do not count as presses for the 'pressed before or during tablet mode' rule.", B_NOTE),
  "C14": ("exploration", "stored-file fault simulation (torn/corrupted layout file) through the real loader, then the real mapper under key histories; exhaustive truncation sweep of shipped texts", "3.D, 4 C14",
-         "A real file is written, faulted (truncation at every offset of every shipped text exhaustively; random truncation, bit flips, block duplication/drop/transposition, garbage, empty, bad paths, non-UTF-8 otherwise) and loaded by the real load_layout_from_file; accepted layouts are installed in a real Mapper and driven by seeded histories. Any unwind is a violation.",
+         "A real file is written, faulted (truncation at every offset of every shipped text exhaustively; random truncation, bit flips, block duplication/drop/transposition, garbage, empty, bad paths, non-UTF-8 otherwise) and loaded by the real load_layout_from_file; accepted layouts are installed in a real Mapper and driven by seeded histories. Any unwind is a violation. The file is also reached through symlinks (plain, to a non-UTF-8 name, dangling, self-referential) and oddly named paths, and read under storage faults injected at the read(2) seam: short counts, EIO after n bytes, EINTR.",
          "Trusted: catch_unwind observes every panic. Real code: load_layout_from_file (real file I/O), serde_json, parser, converter, Mapper. The byte-string quantifier is sampled from a grammar plus faults; weakest fit of the claimed properties (first clause is mostly decided by the generated workload)."),
  "C18": ("exploration", "byte-level simulation on non-blocking pipes: real writer vs libc::input_event, real reader on interleaved streams across EAGAIN boundaries; hybrid loop runs", "3.C, 4 C18",
-         "The simulator plays the uinput consumer and the evdev node on pipes: bytes of every batch are compared record by record with libc::input_event; the tool's reader must decode them back; on streams interleaving foreign records it must return exactly the press/release records with known codes. The sweep over all known key codes x {press, release} is exhaustive; batches/interleavings are sampled; hybrid world-B runs put the byte layer under whole loop histories.",
+         "The simulator plays the uinput consumer and the evdev node on pipes: bytes of every batch are compared record by record with libc::input_event; the tool's reader must decode them back; on streams interleaving foreign records it must return exactly the press/release records with known codes. The sweep over all known key codes x {press, release} is exhaustive; batches/interleavings are sampled; hybrid world-B runs put the byte layer under whole loop histories. Backlogs of 30-700 skippable records before a key record; unknown codes up to 0xffff; one case in 100 on a newly started thread (cold per-thread state); hybrid runs with write(2) failures at numbered system calls, where what arrived on the device is decoded whatever the writer reports.",
          "Trusted: libc::input_event for this target; KeyCode discriminants = kernel key numbers. Real code: DevInputWriter::send, StructSerializer, DevInputReader::next, TabletModeSwitchReader::next. Host ABI only."),
  "C20": ("fault_enumeration", "per-call I/O fault sweep: every driver call of every sampled schedule fails in turn", "3.B, 4 C20",
          "For each sampled (layout, schedule, tape) the fault-free run is executed once to learn its n driver calls, then re-executed n times with exactly the k-th call (register, poll, read or send) returning an error, for every k. The loop must return that error and write nothing afterwards. Two further sweeps go below the driver seam in hybrid runs: every send with the OS-level write under the shipped RealDriver/DevInputWriter failing (EAGAIN, EPIPE, EBADF) and every keyboard/tablet read failing (EBADF). Enumeration over fault positions is complete per schedule; schedules are sampled. In the runs whose poll goes through the shipped RealDriver::poll every wait system call fails in turn as well (EBADF, EINVAL, EFAULT).", B_NOTE),
